@@ -234,6 +234,25 @@ Fixpoint run_from (st : pstate) (ops : list op) : option pstate :=
   end.
 Definition run (ops : list op) : option pstate := run_from init_state ops.
 
+(* ---- histories that cannot hit a Fatalf: the routers they name exist, no handler is
+        registered twice, and the plugin names used anywhere in the history are distinct ---- *)
+Definition op_plugins (o : op) : list plugin :=
+  match o with
+  | OSub _ ps | ORoute _ _ _ _ ps | OUnknown _ _ _ ps | OLeft ps | ORight ps => ps
+  end.
+Definition history_plugins (ops : list op) : list plugin := flat_map op_plugins ops.
+
+Definition key_is (k : kind) (hid : N) (e : kind * N) : bool := kind_eqb (fst e) k && N.eqb (snd e) hid.
+
+Fixpoint refs_ok (nrouters : nat) (hs : list (kind * N)) (ops : list op) : bool :=
+  match ops with
+  | [] => true
+  | OSub p _ :: r => Nat.ltb p nrouters && refs_ok (S nrouters) hs r
+  | ORoute k rt hid _ _ :: r =>
+      Nat.ltb rt nrouters && negb (existsb (key_is k hid) hs) && refs_ok nrouters (hs ++ [(k, hid)]) r
+  | _ :: r => refs_ok nrouters hs r
+  end.
+
 (* ---- what the property prescribes, from the configuration history alone ---- *)
 Definition hview := (N * Z * list plugin)%type.   (* handler id, its status, its chain *)
 
